@@ -237,7 +237,7 @@ def check_case(p, ctx):
 
 
 def run(ctx):
-    drive(ctx, params(ctx.tier), check_case, ctx.budget(quick=220, thorough=1000), label="series")
+    drive(ctx, params(ctx.tier), check_case, ctx.budget(quick=400, thorough=1000), label="series")
 
 
 CASES = {"series": check_case}
